@@ -405,25 +405,42 @@ def _s3(program, res):
 
 
 def polars_coalesce_rule(program, res, rule="C16-S3"):
-    """Polars: the coalesce of shared columns prefers the (original) left input"""
+    """Polars: every coalesce of a shared column (or of a key that shares its name with a column of the other table) prefers the *original left*
+    input.  In the direct branch the plain column is the left table's; in the right-join branch (simulated by a swapped left join) the left
+    table's value arrives under a suffix or as the carried key copy, and it is that carrier which has to win."""
     plj = program.method("polars_model", "PolarsModel", "_natural_join_step", inherited=False)
-    whens = [c for c in ast.walk(plj.node) if isinstance(c, ast.Call) and isinstance(c.func, ast.Attribute) and c.func.attr == "alias"
-             and "pl.when" in unparse(c)]
-    if len(whens) != 2:
-        raise AnalysisError("Polars _natural_join_step: expected two coalescing when/then/otherwise expressions")
-    t0, t1 = unparse(whens[0]), unparse(whens[1])
-    # left join family: when the left value is null take the right twin (suffix of the first join), else keep the left value
-    ok0 = pat.match("pl.when(pl.col(_C).is_null()).then(pl.col(_C + __S)).otherwise(pl.col(_C)).alias(_C)", whens[0]) is not None
-    # right join simulated by a swapped left join: the original left value is the twin; keep it unless it is null
-    ok1 = pat.match("pl.when(pl.col(_C + __S).is_null()).then(pl.col(_C)).otherwise(pl.col(_C + __S)).alias(_C)", whens[1]) is not None
-    if ok0:
-        res.ok(rule, "Polars: left value, else the right twin")
-    else:
-        res.fail_at(rule, plj, "polars-coalesce-direction", f"`{t0[:100]}` does not prefer the left value", whens[0])
-    if ok1:
-        res.ok(rule, "Polars (right join simulated by swapped left join): original left value, else the right one")
-    else:
-        res.fail_at(rule, plj, "polars-coalesce-direction-right", f"`{t1[:110]}` does not prefer the original left value", whens[1])
+    swap_if = None
+    for st in ast.walk(plj.node):
+        if isinstance(st, ast.If) and "right" in unparse(st.test) and any(isinstance(c, ast.Call) and isinstance(c.func, ast.Attribute) and c.func.attr == "join" for c in ast.walk(st)):
+            swap_if = st
+            break
+    if swap_if is None:
+        raise AnalysisError("Polars _natural_join_step: the branch that separates the direct join from the swapped (right) join was not found")
+    direct_is_body = "!=" in unparse(swap_if.test)
+    direct_nodes = {id(x) for b in (swap_if.body if direct_is_body else swap_if.orelse) for x in ast.walk(b)}
+    whens = [c for c in ast.walk(plj.node) if isinstance(c, ast.Call) and isinstance(c.func, ast.Attribute) and c.func.attr == "alias" and "pl.when" in unparse(c)]
+    if len(whens) < 2:
+        raise AnalysisError("Polars _natural_join_step: expected at least two coalescing when/then/otherwise expressions")
+    n_direct = n_swapped = 0
+    for w in whens:
+        m_direct = pat.match("pl.when(pl.col(__C).is_null()).then(pl.col(__T)).otherwise(pl.col(__C)).alias(__C)", w)
+        m_swapped = pat.match("pl.when(pl.col(__T).is_null()).then(pl.col(__C)).otherwise(pl.col(__T)).alias(__C)", w)
+        in_direct = id(w) in direct_nodes
+        # which of the two column expressions is the carrier (suffixed twin / carried key copy)?  the one that is not the alias target
+        if in_direct:
+            n_direct += 1
+            if m_direct is not None and m_direct["__T"] != m_direct["__C"]:
+                res.ok(rule, f"Polars: `{m_direct['__C']}` keeps the left value, else takes `{m_direct['__T']}`")
+            else:
+                res.fail_at(rule, plj, "polars-coalesce-direction", f"`{unparse(w)[:100]}` does not prefer the left value", w)
+        else:
+            n_swapped += 1
+            if m_swapped is not None and m_swapped["__T"] != m_swapped["__C"]:
+                res.ok(rule, f"Polars (right join simulated by swapped left join): `{m_swapped['__T']}` (the original left value) wins over `{m_swapped['__C']}`")
+            else:
+                res.fail_at(rule, plj, "polars-coalesce-direction-right", f"`{unparse(w)[:110]}` does not prefer the original left value", w)
+    if n_direct < 1 or n_swapped < 1:
+        raise AnalysisError("Polars _natural_join_step: a coalesce was expected in both the direct and the swapped branch")
 
 
 def coalesce_exemption_rule(program, res, rule="C16-S3"):
@@ -470,27 +487,54 @@ def polars_orphan_key_rule(program, res, rule="C16-S3"):
              and any(kw.arg in ("left_on", "right_on") for kw in c.keywords)]
     if len(joins) < 2:
         raise AnalysisError("Polars _natural_join_step: the two join calls (direct and swapped) were not found")
-    # after-the-join aliases: with_columns([... pl.col(<key expr>).alias(<other key>) ...]) where neither side is a suffixed temporary
-    bad = []
-    for c in ast.walk(plj.node):
-        if isinstance(c, ast.Call) and isinstance(c.func, ast.Attribute) and c.func.attr == "alias" and isinstance(c.func.value, ast.Call) \
-                and dotted_name(c.func.value.func) == "pl.col":
-            src, dst = c.func.value.args[0] if c.func.value.args else None, c.args[0] if c.args else None
-            if src is None or dst is None:
+    # the carried copies: `pl.col(c).alias(f"{c}<suffix>") for c in <orphan list>` before the join
+    suffixes, orphan_lists = set(), set()
+    for comp in ast.walk(plj.node):
+        if isinstance(comp, (ast.ListComp, ast.GeneratorExp)) and isinstance(comp.elt, ast.Call) and isinstance(comp.elt.func, ast.Attribute) \
+                and comp.elt.func.attr == "alias" and comp.elt.args and isinstance(comp.elt.args[0], ast.JoinedStr) and isinstance(comp.generators[0].iter, ast.Name):
+            consts = [v.value for v in comp.elt.args[0].values if isinstance(v, ast.Constant)]
+            if consts:
+                suffixes.update(consts)
+                orphan_lists.add(comp.generators[0].iter.id)
+
+    def _mentions_carried(e):
+        return any(isinstance(x, ast.JoinedStr) and any(isinstance(v, ast.Constant) and v.value in suffixes for v in x.values) for x in ast.walk(e))
+
+    # after the join every producer of an orphan key's column must read the carried copy: `.alias(<orphan name>)` on an expression over the
+    # carried copy, or a rename `{carried: name}`.  A producer that reads only another column re-creates the key from the surviving partner.
+    bad, good = [], 0
+    scopes = []
+    for n in ast.walk(plj.node):
+        if isinstance(n, ast.For) and isinstance(n.target, ast.Name) and any(isinstance(x, ast.Name) and x.id in orphan_lists | {"orphan_keys"} for x in ast.walk(n.iter)):
+            scopes.append(({n.target.id}, n.body))
+        elif isinstance(n, (ast.ListComp, ast.GeneratorExp, ast.DictComp)) and any(isinstance(x, ast.Name) and x.id in orphan_lists | {"orphan_keys"} for x in ast.walk(n.generators[0].iter)):
+            if isinstance(n, ast.DictComp):
+                body = [ast.Expr(n.key), ast.Expr(n.value)]
+                if _mentions_carried(n.key):
+                    good += 1
                 continue
-            stxt, dtxt = unparse(src), unparse(dst)
-            temp = any(isinstance(x, (ast.JoinedStr, ast.BinOp)) or (isinstance(x, ast.Constant) and isinstance(x.value, str) and "_da_" in x.value) for x in (src, dst))
-            if temp:
-                continue
-            if isinstance(src, ast.Name) and isinstance(dst, ast.Name) and src.id != dst.id:
-                bad.append(c)
-    carried = any(isinstance(c, ast.Call) and isinstance(c.func, ast.Attribute) and c.func.attr == "rename" and "_da_join_tmp_key" in unparse(c) for c in ast.walk(plj.node))
+            scopes.append(({t.id for t in ast.walk(n.generators[0].target) if isinstance(t, ast.Name)}, [ast.Expr(n.elt)]))
+    for names, body in scopes:
+        for st in body:
+            for c in ast.walk(st):
+                if isinstance(c, ast.Call) and isinstance(c.func, ast.Attribute) and c.func.attr == "alias" and c.args and isinstance(c.args[0], ast.Name) and c.args[0].id in names:
+                    if _mentions_carried(c.func.value):
+                        good += 1
+                    else:
+                        bad.append(c)
+                elif isinstance(c, ast.Call) and isinstance(c.func, ast.Attribute) and c.func.attr == "rename" and c.args and isinstance(c.args[0], ast.Dict):
+                    for k, v_ in zip(c.args[0].keys, c.args[0].values):
+                        if isinstance(v_, ast.Name) and v_.id in names:
+                            if k is not None and _mentions_carried(k):
+                                good += 1
+                            else:
+                                bad.append(c)
     if bad:
         res.fail_at(rule, plj, "polars-orphan-key-aliased-from-other-side",
-                    f"`{unparse(bad[0])}` re-creates a differently named key after the join as a copy of the surviving key: for an unmatched row of a left / right join "
+                    f"`{unparse(bad[0])[:120]}` re-creates a differently named key after the join from a column other than its carried copy: for an unmatched row of a left / right join "
                     f"the column then holds the other table's key value (a.natural_join(b, on=[('k','j')], jointype='left'): j = k for rows without partner) where SQL returns NULL", bad[0])
-    elif carried:
-        res.ok(rule, "Polars: a key that exists on one side only is carried through the join under a temporary name and renamed back")
+    elif suffixes and good >= 2:
+        res.ok(rule, f"Polars: a key that exists on one side only is carried through the join under a temporary name and every producer of its column reads that copy ({good} producers)")
     else:
         raise AnalysisError("Polars _natural_join_step: neither the carried temporary key nor an aliasing of keys after the join was recognised")
 
@@ -513,7 +557,7 @@ def polars_join_guard_rule(program, res, rule="C16-S3"):
                             f"non-key column keeps the left null where Pandas and SQL return the right value", n.stmt)
             else:
                 res.ok(rule, f"Polars: coalesce of shared columns guarded only by {conds}")
-    if n_c != 2:
+    if n_c < 2:
         raise AnalysisError("Polars _natural_join_step: coalescing statements not found")
 
 
